@@ -83,9 +83,26 @@ pub fn cheap_key_body(key: Key) {
     assert!(cli.__verif_writer().pending == 0, "C15: flushed");
     assert!(post_inv(&p));
     let moved = !line_eq(&p, &line_of(&pre));
-    kani::cover!(moved, "the key changed the line or the cursor");
+    // without the history feature Up / Down are inert by specification (C16)
+    let hist = cfg!(feature = "history");
+    let inert = !hist && (key == Key::Up || key == Key::Down);
+    if inert {
+        assert!(!moved && cli.__verif_writer().written == 0, "C16: Up/Down do nothing without history");
+    }
+    // what is possible at all depends on the buffer sizes (boundary sizes are C03's runs)
+    let can_move = match key {
+        Key::Up => hist && H >= 2 && N >= 1,
+        Key::Down => hist && N >= 1,
+        _ => N >= 1,
+    };
+    let can_echo = match key {
+        Key::Up => hist && H >= 2,
+        Key::Down => hist,
+        _ => N >= 1,
+    };
+    kani::cover!(!can_move || moved, "the key changed the line or the cursor");
     kani::cover!(!moved, "the key changed nothing");
-    kani::cover!(cli.__verif_writer().written > 0, "something was echoed");
+    kani::cover!(!can_echo || cli.__verif_writer().written > 0, "something was echoed");
 }
 
 macro_rules! cheap_key {
@@ -328,7 +345,7 @@ fn key_tab() {
         }
         kani::cover!(N < 4 || changed, "completed towards help");
     }
-    kani::cover!(pre.valid > 0 && line_eq(&p, &line_of(&pre)), "nothing to complete");
+    kani::cover!(N == 0 || (pre.valid > 0 && line_eq(&p, &line_of(&pre))), "nothing to complete");
 }
 
 // ----------------------------------------------------------------------------- routing at larger bounds
